@@ -73,16 +73,32 @@ partial def toStmt : SExp → Option Stmt
   | .list [.atom "wr", e] => do some (.write (← toExpr e))
   | .list [.atom "sl", e] => do some (.sleep (← toExpr e))
   | .list [.atom "brk"] => some .brk
+  -- W6: `(call x f (args))` / `(call _ f (args))`; the carried definition is filled in by `Prog.resolve` (see `parseProg`)
+  | .list [.atom "call", .atom x, .atom f, .list args] => do
+    some (.call (if x == "_" then none else some x) f [] [] .int .skip none (← args.mapM toExpr))
+  | _ => none
+
+def ty? : String → Option Ty
+  | "int" => some .int | "bool" => some .bool | "string" => some .string | _ => none
+
+/-- `(def name ((a int) (b bool)) body ret)` with `ret` an expression or `none` -/
+def toHelper : SExp → Option Helper
+  | .list [.atom "def", .atom name, .list ps, body, ret] => do
+    let ps ← ps.mapM fun q => match q with | .list [.atom a, .atom t] => (ty? t).map fun t => (a, t) | _ => none
+    let ret ← (match ret with | .atom "none" => some none | e => (toExpr e).map some)
+    some { name := name, ps := ps, body := ← toStmt body, ret := ret }
   | _ => none
 
 def toProg : SExp → Option Prog
   | .list [.atom "prog", pre, .atom "none"] => do some { pre := ← toStmt pre, body := none }
   | .list [.atom "prog", pre, body] => do some { pre := ← toStmt pre, body := some (← toStmt body) }
+  | .list [.atom "prog", pre, body, .list (.atom "defs" :: ds)] => do
+    some { pre := ← toStmt pre, body := ← (match body with | .atom "none" => some none | b => (toStmt b).map some), helpers := ← ds.mapM toHelper }
   | _ => none
 
 def parseProg (s : String) : Option Prog := do
   let (e, _) ← parseS (tokenize s)
-  (toProg e).map Prog.renum
+  (toProg e).map fun p => p.resolve.renum
 
 def showEv : Ev → String
   | .write n => s!"w{n}"
